@@ -424,3 +424,39 @@ func ConstInt(v ssa.Value) (int64, bool) {
 	}
 	return 0, false
 }
+
+// CanReachAvoiding reports whether instruction b can execute after instruction
+// a on some path that does not execute instruction avoid in between.
+func CanReachAvoiding(a, b, avoid ssa.Instruction) bool {
+	blk, i := After(a)
+	seen := map[*ssa.BasicBlock]bool{}
+	type st struct {
+		b *ssa.BasicBlock
+		i int
+	}
+	work := []st{{blk, i}}
+	for len(work) > 0 {
+		s := work[len(work)-1]
+		work = work[:len(work)-1]
+		blocked := false
+		for j := s.i; j < len(s.b.Instrs); j++ {
+			if s.b.Instrs[j] == avoid {
+				blocked = true
+				break
+			}
+			if s.b.Instrs[j] == b {
+				return true
+			}
+		}
+		if blocked {
+			continue
+		}
+		for _, succ := range s.b.Succs {
+			if !seen[succ] {
+				seen[succ] = true
+				work = append(work, st{succ, 0})
+			}
+		}
+	}
+	return false
+}
